@@ -357,10 +357,14 @@ theorem lines_ok (f : File) (hwf : f.wf) : ∀ l ∈ f.lines, l ≠ [] ∧ ∀ c
 theorem rowTokens_length (r : Row) (c : CellLay) : (rowTokens r c).length = 3 + r.nums.length := by
   simp [rowTokens]; omega
 
-/-- the scanner phase on a printed file: the state after the last line -/
-theorem loop_file (f : File) (hwf : f.wf) :
-    ∃ st, loop false {} f.lines = .ok st ∧ st.chans = (headerTokens f.sel).map (chanOf f) ∧
-      st.table = columns [] (headerTokens f.sel).length (f.rows.map (fun r => rowTokens r.1 r.2.2)) := by
+/-- the state after the last line of a printed file -/
+def stateOf (f : File) : St :=
+  ⟨dictOf f, false, headerTokens f.sel, (headerTokens f.sel).map (chanOf f),
+    columns [] (headerTokens f.sel).length (f.rows.map (fun r => rowTokens r.1 r.2.2))⟩
+
+/-- the scanner phase on a printed file followed by any further lines -/
+theorem loop_file (f : File) (hwf : f.wf) (rest : List Str) :
+    loop false {} (f.lines ++ rest) = loop false (stateOf f) rest := by
   have hst := sel_tok f hwf
   have hmk := hdr_mk f hwf
   have hnd' := hdr_nodup f hwf
@@ -378,14 +382,8 @@ theorem loop_file (f : File) (hwf : f.wf) :
   have hadd := addChannels_ok (dictOf f) (chanOf f) (headerTokens f.sel) [] [] hmk hnd' (by intro n _ c hc; simp at hc)
   simp only [List.nil_append] at hadd
   have hlen : (headerTokens f.sel).length = ((headerTokens f.sel).map (chanOf f)).length := by simp
-  refine ⟨⟨dictOf f, false, headerTokens f.sel, (headerTokens f.sel).map (chanOf f),
-    (f.rows.map (fun r => rowTokens r.1 r.2.2)).foldl appendRow (List.replicate (headerTokens f.sel).length [])⟩, ?_, rfl, ?_⟩
-  · rw [File.lines, h0, loop_decls false f.decls [] _ hd hnd (by intro d _ e he; simp at he)]
-    show loop false ⟨dictOf f, true, [], [], []⟩ _ = _
-    rw [loop_header false (dictOf f) f.sel f.hdrLay _ hne hst hhl, hadd]
-    simp only []
-    exact loop_data (dictOf f) _ _ hlen (headerTokens f.sel).length _ _ _ (by simp) hrowsF
-  · simp only []
+  have htab : (f.rows.map (fun r => rowTokens r.1 r.2.2)).foldl appendRow (List.replicate (headerTokens f.sel).length []) =
+      columns [] (headerTokens f.sel).length (f.rows.map (fun r => rowTokens r.1 r.2.2)) := by
     rw [foldl_appendRow (headerTokens f.sel).length _ _ (by simp)]
     · have := zipWith_replicate_nil (columns [] (headerTokens f.sel).length (f.rows.map (fun r => rowTokens r.1 r.2.2)))
       rw [columns_length] at this
@@ -393,10 +391,17 @@ theorem loop_file (f : File) (hwf : f.wf) :
     · intro t ht
       obtain ⟨r, hr, rfl⟩ := List.mem_map.mp ht
       rw [rowTokens_length, (hrows r hr).1.2.2.2.2.2.2.2.2.2.2.1]; simp [headerTokens]; omega
+  rw [File.lines, h0, List.append_assoc, loop_decls false f.decls [] _ hd hnd (by intro d _ e he; simp at he)]
+  show loop false ⟨dictOf f, true, [], [], []⟩ _ = _
+  rw [List.cons_append, loop_header false (dictOf f) f.sel f.hdrLay _ hne hst hhl, hadd]
+  simp only []
+  rw [loop_data (dictOf f) _ _ hlen (headerTokens f.sel).length _ _ _ rest (by simp) hrowsF, htab]
+  rfl
 
 /-- parsing a printed file gives the content -/
 theorem parse_print (f : File) (hwf : f.wf) : parseFile (print f) = .ok (expected f) := by
-  obtain ⟨st, hloop, hch, htab⟩ := loop_file f hwf
+  have hloop := loop_file f hwf []
+  rw [List.append_nil] at hloop
   have hrowsOK : List.Forall₂ (rowOK ((headerTokens f.sel).map (chanOf f)))
       (f.rows.map (fun r => rowTokens r.1 r.2.2)) (f.rows.map (fun r => cellValues r.1)) := by
     apply forall₂_map'
@@ -408,7 +413,7 @@ theorem parse_print (f : File) (hwf : f.wf) : parseFile (print f) = .ok (expecte
   rw [splitLines_joinLines _ _ (lines_ok f hwf)]
   unfold parseLines
   rw [hloop]
-  simp only [hch, htab, List.length_map, columns_length]
+  simp only [loop, stateOf, List.length_map, columns_length]
   rw [if_neg (by simp [headerTokens]), if_neg (by simp), hconv]
   rfl
 
